@@ -582,9 +582,13 @@ package transports
 //@ func (*transport).Discarded()
 //@   requires t != nil
 //@   modifies nothing
+// discarding only raises the flag: the transport keeps its listeners (the server's "headers" listener must still fire for
+// the response that answers an outstanding poll, the session's listeners must still hear the close of the old transport)
 //@ func (*transport).Discard()
+//@   props C08, C12, C17, C03
 //@   requires t != nil
 //@   modifies t._discarded
+//@   ensures [C17.discard.flagonly,C08.discard.flagonly,C12.discard.flagonly,C03.discard.flagonly] t._discarded.v != 0 && nevents() == 0
 //@ func (*transport).Sid()
 //@   requires t != nil
 //@   modifies nothing
